@@ -355,7 +355,8 @@ class FITSWCSCorrector(WCSCorrector):
         return True, ''
 
     def _get_tanp_center_pixel_scale(self):
-        pscale = self.tanp_pixel_scale(*self._wcs.wcs.crpix)
+        # CRPIX is 1-based while detector positions are 0-based:
+        pscale = self.tanp_pixel_scale(*(self._wcs.wcs.crpix - 1))
         return pscale
 
     def set_correction(self, matrix=[[1, 0], [0, 1]], shift=[0, 0],
